@@ -65,13 +65,13 @@ def cells(tier, seed):
                 picks.add(rnd.choice(pool))
             for n in sorted(picks):
                 out.append({'dim': 1, 'wave': w, 'mode': mode, 'J': rnd.choice([1, 1, 2, 3, 4]),
-                            'shape': [n], 'N': rnd.choice([1, 2, 3]), 'C': rnd.choice([1, 2, 3, 5])})
+                            'shape': [n], 'N': rnd.choice([1, 2, 3]), 'C': rnd.choice([1, 2, 3, 4, 5])})
             for _ in range(n2):
                 h, wd = rnd.choice(SIDES), rnd.choice(SIDES)
                 if h == wd:
                     wd = rnd.choice([s for s in SIDES if s != h])
                 out.append({'dim': 2, 'wave': w, 'mode': mode, 'J': rnd.choice([1, 1, 2, 3]),
-                            'shape': [h, wd], 'N': rnd.choice([1, 2]), 'C': rnd.choice([1, 2, 3, 4])})
+                            'shape': [h, wd], 'N': rnd.choice([1, 2, 4]), 'C': rnd.choice([1, 2, 3, 4])})
             if tier == 'thorough' or rnd.random() < 0.25:
                 out.append({'dim': 2, 'wave': w, 'mode': mode, 'J': rnd.choice([1, 2, 3, 4]),
                             'shape': [rnd.choice(BIG), rnd.choice(BIG + [16, 17])], 'N': 1, 'C': 2,
@@ -86,6 +86,16 @@ def cells(tier, seed):
         tall = [rnd.randrange(17000, 30000), rnd.choice([3, 4, 6])]
         out.append({'dim': 2, 'wave': w, 'mode': mode, 'J': rnd.choice([1, 2]), 'shape': tall if rnd.random() < 0.5 else tall[::-1],
                     'N': 1, 'C': 1, 'noimp': True})
+    for _ in range(8 if tier == 'quick' else 160):        # many channels / wide batches
+        big = rnd.choice([32, 33, 64])
+        N, C = (1, big) if rnd.random() < 0.7 else (big, 1)
+        w = rnd.choice([v for v in waves if refs.flen(v) <= 12])
+        if rnd.random() < 0.5:
+            out.append({'dim': 1, 'wave': w, 'mode': rnd.choice(refs.MODES), 'J': rnd.choice([1, 2, 3]),
+                        'shape': [rnd.choice([9, 16, 21])], 'N': N, 'C': C})
+        else:
+            out.append({'dim': 2, 'wave': w, 'mode': rnd.choice(refs.MODES), 'J': rnd.choice([1, 2]),
+                        'shape': [rnd.choice([6, 9, 12]), rnd.choice([7, 10])], 'N': N, 'C': C})
     short = [w for w in waves if refs.flen(w) <= 20]
     for c in out:
         if c['mode'] == 'periodization' and rnd.random() < 0.2:
@@ -143,10 +153,10 @@ def lib_mode(cell):
     return 'per' if (cell['mode'] == 'per' or cell.get('spelling') == 'per') else cell['mode']
 
 
-def build(cell):
+def build(cell, dtype=None):
     import torch
     import pytorch_wavelets as pw
-    with util.default_dtype(torch.float64):
+    with util.default_dtype(dtype or torch.float64):
         if cell['dim'] == 1:
             return pw.DWT1DForward(J=cell['J'], wave=wave_arg(cell, False), mode=lib_mode(cell))
         return pw.DWTForward(J=cell['J'], wave=wave_arg(cell, False), mode=lib_mode(cell))
